@@ -431,6 +431,35 @@ def rule_directed(rng):
     return name, f(rng, w)
 
 
+def near_miss(rng):
+    """a rule-directed tree with ONE leaf changed in kind: a literal becomes a variable of the same width, a variable becomes a
+    literal or another variable.  The guards of a simplifier (operand must be constant / the same / different) are exactly what
+    such a change violates, so a rule that fires anyway fires wrongly."""
+    name, tree = rule_directed(rng)
+    paths = []
+
+    def walk(t, path):
+        if isinstance(t, tuple):
+            if t[0] in ("bvv", "bvs"):
+                paths.append(path)
+            elif t[0] not in ("boolv", "bools", "int"):
+                for i, c in enumerate(t[1:], 1):
+                    walk(c, path + (i,))
+    walk(tree, ())
+    if not paths:
+        return name, tree
+    pth = rng.choice(paths)
+
+    def put(t, path):
+        if not path:
+            w = t[2]
+            if t[0] == "bvv":
+                return ("bvs", rng.choice("xyz") + str(w), w)
+            return ("bvv", rng.randrange(1 << min(w, 16)), w) if rng.random() < 0.5 else ("bvs", rng.choice("xyz") + str(w), w)
+        return t[:path[0]] + (put(t[path[0]], path[1:]),) + t[path[0] + 1:]
+    return name + "+near-miss", put(tree, pth)
+
+
 def random_tree(rng):
     w = rng.choice(SMALL_WIDTHS if rng.random() < 0.6 else WIDTHS)
     d = rng.choice([2, 3, 3, 4])
